@@ -188,8 +188,12 @@ def report(prop, level, results, rule, t0, tier_name, assumptions=(), extra_cov=
         cov.update(extra_cov)
     ev = {"property_id": prop, "tier": tier_name, "seed": seed(), "level": level, "coverage": cov,
           "assumptions": list(assumptions), "wall_s": round(time.time() - t0, 2), "violations": nviol}
-    os.makedirs(os.path.join(VERIF, "evidence"), exist_ok=True)
-    with open(os.path.join(VERIF, "evidence", "%s.json" % prop), "w") as fh:
+    evdir = os.path.join(VERIF, "evidence")
+    if os.path.realpath(os.environ.get("VERIF_REPO", "/repo")) != "/repo":
+        # a run against a scratch copy of the repository (seeded change, mutant) is no evidence about /repo
+        evdir = os.path.join("/tmp", "verif-evidence-of-scratch-runs")
+    os.makedirs(evdir, exist_ok=True)
+    with open(os.path.join(evdir, "%s.json" % prop), "w") as fh:
         json.dump(ev, fh, indent=1, default=str)
     for case, why in inconclusive[:5]:
         print("INCONCLUSIVE case=%s: %s" % (json.dumps(case, default=str)[:200], why[:1500]))
